@@ -143,6 +143,8 @@ class Session(object):
                         'sr_receive_dict': {}, 'mpls_vpn_send_dict': {}, 'mpls_vpn_receive_dict': {}})
             fsm.f['protocol'] = P
             peering.f['estab_protocol'] = P
+        self.timers_pre = {sh: dict(t.f) for sh, t in self.timers.items()}
+        self.pre = self.snap()
 
     # ---- snapshots
     def snap(self):
